@@ -144,26 +144,9 @@ def r08_3(facts, res):
     if nuses < 6:
         raise BrokenCheck("R08-3: only %d uses of axis functions found from eval_axis_node_test (floor 6)" % nuses)
     by_variant = {v: sorted(x) for v, x in table.items()}
-    # the abbreviated match: on v.as_str() with "@" and _ (in eval_axis_node_test or a function it hands the axis to)
-    abbr = {}
-
-    def axis_only_of(body):
-        cs = sorted(c for c in arm_callees(facts, body) if c in xpdispatch.AXIS_TARGETS)
-        if not cs:
-            # the arm names the unabbreviated axis instead (`"@" => &AxisName::Attribute`): same evaluator by construction
-            named = [str(m["path"]).split("::")[-1] for m in walk(body) if m.get("k") == "Path" and "model::AxisName::" in str(m.get("path", ""))]
-            if len(named) == 1:
-                return list(by_variant.get(named[0]) or [])
-        return cs
-    for g in xpdispatch.axis_scope(facts):
-        for n in walk(g["body"]):
-            if n.get("k") == "Match" and n.get("src") == "Normal" and "str" in str(n.get("scrutty", "")) and not abbr:
-                for arm in n["arms"]:
-                    pat = arm["pat"]
-                    if pat.get("p") == "Expr" and pat["e"].get("t") == "str":
-                        abbr[pat["e"]["v"]] = axis_only_of(arm["body"])
-                    elif pat.get("p") in ("Wild", "Bind"):
-                        abbr["_"] = axis_only_of(arm["body"])
+    # the abbreviated step: `@` and the empty abbreviation are two values of the dispatching input (enumflow splits the
+    # payload of AxisSpecifier::Abbreviated by its comparisons with the literal "@")
+    abbr = {"@": by_variant.get("Abbreviated:@"), "_": by_variant.get("Abbreviated:*")}
     pairs = [("@", "Attribute"), ("_", "Child")]
     for a, v in pairs:
         st["instances"] += 1
@@ -176,7 +159,10 @@ def r08_3(facts, res):
     dos = by_variant.get("DescendantOrSelf")
     for path in ("xml_xpath::eval::eval_loc_expr", "xml_xpath::eval::eval_filtered_loc_expr"):
         g = facts.fn(path)
-        arms = match_arms_on(g, "model::LocationPathOperator")
+        fam = facts.family(g)        # the function and the private pieces it may be split into
+        arms = None
+        for h in fam:
+            arms = arms or match_arms_on(h, "model::LocationPathOperator")
         st["instances"] += 1
         ok = False
         if arms:
@@ -184,7 +170,7 @@ def r08_3(facts, res):
                 if "DescendantOrSelfNode" in variants_of_pat(arm["pat"]):
                     ok = bool(dos) and dos[0] in arm_callees(facts, arm["body"])
         # eval_filtered_loc_expr has two matches on the operator; require all of them
-        alls = [n for n in walk(g["body"]) if n.get("k") == "Match" and "LocationPathOperator" in str(n.get("scrutty", ""))]
+        alls = [n for h in fam for n in walk(h["body"]) if n.get("k") == "Match" and scrut_is(n, "LocationPathOperator")]
         for n in alls:
             for arm in n["arms"]:
                 if "DescendantOrSelfNode" in variants_of_pat(arm["pat"]) and not (dos and dos[0] in arm_callees(facts, arm["body"])):
@@ -196,7 +182,7 @@ def r08_3(facts, res):
     # '/x' and '//x' start from the same node(s): in every match over the path operator the DescendantOrSelfNode arm applies
     # descendant-or-self to exactly what the Current arm starts from (a leading '//' starts at the root, like a leading '/')
     g = facts.fn("xml_xpath::eval::eval_filtered_loc_expr")
-    for mi, n in enumerate(sorted([x for x in walk(g["body"]) if x.get("k") == "Match" and "LocationPathOperator" in str(x.get("scrutty", ""))],
+    for mi, n in enumerate(sorted([x for h in facts.family(g) for x in walk(h["body"]) if x.get("k") == "Match" and scrut_is(x, "LocationPathOperator")],
                                   key=lambda x: x.get("ln") or 0)):
         arms = {}
         for arm in n["arms"]:
